@@ -78,6 +78,7 @@ type Thread struct {
 	wake    uint32
 	exited  uint32
 	done    bool
+	endDone bool // done when the execution ended (before the abort pass finished every thread)
 	started bool
 	Daemon  bool
 	yielded bool
@@ -560,10 +561,21 @@ func (ex *Exec) Running() *Thread { return ex.running }
 func (ex *Exec) Threads() []*Thread { return ex.threads }
 
 //go:norace
-func (t *Thread) Done() bool { return t.done }
+func (t *Thread) Done() bool {
+	if t.ex.ended != 0 {
+		return t.endDone
+	}
+	return t.done
+}
 
 //go:norace
-func (t *Thread) PendingWhat() string { return t.pend.kind.String() + ":" + t.pend.what }
+func (t *Thread) PendingWhat() string {
+	w := t.pend.what
+	if i := strings.Index(w, " @"); i >= 0 {
+		w = w[:i] // the caller suffix only exists in trace mode: keep signatures identical in both modes
+	}
+	return t.pend.kind.String() + ":" + w
+}
 
 // Epoch changes whenever a kernel-affecting step ran (probe cache key).
 //
@@ -757,6 +769,9 @@ func (ex *Exec) finish(kind EndKind, msg string) {
 	}
 	ex.End = kind
 	ex.EndMsg = msg
+	for _, t := range ex.threads {
+		t.endDone = t.done
+	}
 	ex.aborting = true
 	ex.ended = 1
 }
